@@ -648,6 +648,8 @@ int tls13_process_client_hello_exts(const uint8_t *exts, size_t extslen,
 	uint8_t *server_exts, size_t *server_exts_len, size_t server_exts_maxlen)
 {
 	size_t len = 0;
+	int supported_versions_seen = 0;
+	int key_share_seen = 0;
 	*server_exts_len = 0;
 
 	while (extslen) {
@@ -659,6 +661,19 @@ int tls13_process_client_hello_exts(const uint8_t *exts, size_t extslen,
 			|| tls_uint16array_from_bytes(&ext_data, &ext_datalen, &exts, &extslen) != 1) {
 			error_print();
 			return -1;
+		}
+
+		// an extension type must not appear twice, every response is written to server_exts once
+		if (ext_type == TLS_extension_supported_versions) {
+			if (supported_versions_seen++) {
+				error_print();
+				return -1;
+			}
+		} else if (ext_type == TLS_extension_key_share) {
+			if (key_share_seen++) {
+				error_print();
+				return -1;
+			}
 		}
 
 		switch (ext_type) {
